@@ -406,6 +406,54 @@ async fn run_venue(a: &Args, m: &mut mon::Mon) {
     }
 }
 
+/// C15 on chain: the three pause handlers driven through long random sequences of pause orders
+/// (by the fee admin and by strangers), admin and permissionless unpauses, propagations and clock
+/// steps at the 30 minute / 24 hour boundaries +-1 second.
+async fn run_pause_chain(a: &Args, m: &mut mon::Mon) {
+    use rand::Rng;
+    use solana_sdk::signature::Signer;
+    let t0 = Instant::now();
+    let mut world_no = 0u64;
+    while t0.elapsed() < a.budget {
+        let seed = subseed(a, world_no);
+        let mut r = storm::rng(seed);
+        let mut w = world::World::new(seed, 1_700_000_000, world::FeeCfg::default()).await;
+        let g = w.add_group().await;
+        let gk = w.groups[g].key;
+        let fa = world::clone_kp(&w.fee_admin);
+        let u = w.add_user(0).await;
+        let stranger = w.user_kp(u);
+        let steps = if a.tier == "thorough" { 4000 } else { 600 };
+        for _ in 0..steps {
+            if t0.elapsed() >= a.budget {
+                break;
+            }
+            match r.gen_range(0..10) {
+                0..=2 => {
+                    let s = if r.gen_bool(0.9) { world::clone_kp(&fa) } else { world::clone_kp(&stranger) };
+                    let _ = w.exec(m, &[ix::panic_pause(s.pubkey())], &[&s]).await;
+                }
+                3..=5 => {
+                    let dt = storm::pick(&mut r, &[0i64, 1, 1, 599, 1799, 1800, 1801, 3599, 3600, 3601, 43_200, 82_800, 84_599, 84_600, 84_601, 86_399, 86_400, 86_401, 90_000]);
+                    w.chain.advance(dt);
+                }
+                6 => {
+                    let s = if r.gen_bool(0.9) { world::clone_kp(&fa) } else { world::clone_kp(&stranger) };
+                    let _ = w.exec(m, &[ix::panic_unpause(s.pubkey())], &[&s]).await;
+                }
+                7 | 8 => {
+                    let _ = w.exec(m, &[ix::panic_unpause_permissionless()], &[]).await;
+                }
+                _ => {
+                    let _ = w.exec(m, &[ix::propagate_fee(gk)], &[]).await;
+                }
+            }
+        }
+        m.r.add("pause_chain.worlds", 1);
+        world_no += 1;
+    }
+}
+
 /// Matrices over twin groups (C08: signer x substitution; C14: bank state x pause timing).
 async fn run_matrix(a: &Args, m: &mut mon::Mon) {
     use rand::Rng;
@@ -514,6 +562,8 @@ async fn main() {
         "C14" => vec!["C14"],
         "C19" => vec!["C19"],
         "C11" => vec!["C11"],
+        "C18" => vec!["C18"],
+        "C15" => vec!["C15"],
         "C20" => vec!["C20", "C16", "C04", "C05", "C02"],
         "ALL" => vec!["C01", "C02", "C03", "C06", "C16", "C17", "C04", "C05", "C07", "C10", "C11"],
         _ => vec![],
@@ -541,7 +591,8 @@ async fn main() {
             }
         }
         "C04" | "C05" | "C07" | "C09" => run_scen(&a, &mut m).await,
-        "C12" | "C13" | "C19" => run_admin(&a, &mut m).await,
+        "C12" | "C13" | "C18" | "C19" => run_admin(&a, &mut m).await,
+        "C15" => run_pause_chain(&a, &mut m).await,
         "C08" | "C14" => {
             if a.shard % 2 == 0 {
                 run_matrix(&a, &mut m).await
